@@ -119,3 +119,88 @@ package transaction
 //@   opaque-callee rollbackPessimisticLocks close FlushWait broadcastToAllStores resolveFlushedLocks spawnWithStorePool
 //@   at def(rollbackBo) assert detached: rollbackBo.ctx == storeCtxOf(txn.store)
 //@   at call(resolveFlushedLocks) assert outcome: !arg_commit && arg_start == txn.committer.pipelinedCommitInfo.pipelinedStart && arg_end == txn.committer.pipelinedCommitInfo.pipelinedEnd && arg_start != "" && arg_end != ""
+
+// ---- C04: what the committer puts on the wire ------------------------------------------------------------------------
+// CommitterMutations as an abstract indexed list (assumed of every implementation)
+//@ spec func mutLen(m CommitterMutations) int
+//@ spec func mutOp(m CommitterMutations, i int) kvrpcpb.Op
+//@ spec func mutKey(m CommitterMutations, i int) []byte
+//@ spec func mutVal(m CommitterMutations, i int) []byte
+//@ func (CommitterMutations) Len
+//@   trusted
+//@   pure
+//@   ensures result == mutLen(recv) && result >= 0
+//@ func (CommitterMutations) GetOp
+//@   trusted
+//@   pure
+//@   ensures result == mutOp(recv, i)
+//@ func (CommitterMutations) GetKey
+//@   trusted
+//@   pure
+//@   bytes: key
+//@   ensures result == mutKey(recv, i)
+//@ func (CommitterMutations) GetValue
+//@   trusted
+//@   pure
+//@   bytes: key
+//@   ensures result == mutVal(recv, i)
+
+//@ func (*minCommitTsManager) get
+//@   prop C04
+//@   pure
+//@   ensures result == m.value
+
+// A prewrite request carries every mutation of its batch at its position with its operation, key and value; names the
+// committer's primary and start timestamp; its min-commit-ts lies above the start timestamp, above the for-update
+// timestamp of a pessimistic transaction and not below what the min-commit-ts manager holds; the lock time-to-live is
+// not below the committer's; async-commit and one-phase flags are the committer's, and only the primary batch of an
+// async commit lists secondaries. (Timestamps below the 64-bit maximum: +1 does not wrap.)
+//@ func (*twoPhaseCommitter) buildPrewriteRequest
+//@   prop C04
+//@   bytes: key
+//@   requires c.startTS < 18446744073709551615 && c.forUpdateTS < 18446744073709551615 && (c.forUpdateTS == 0 || c.forUpdateTS >= c.startTS)
+//@   opaque-callee asyncSecondaries GetRequestSource Key
+//@   loop 1 invariant filled: 0 <= i && i <= mutLen(batch.mutations) && len(mutations) == mutLen(batch.mutations) && m == batch.mutations &&
+//@       forall j int :: 0 <= j && j < i ==> mutations[j] != nil && mutations[j].Op == mutOp(batch.mutations, j) && mutations[j].Key == mutKey(batch.mutations, j) && mutations[j].Value == mutVal(batch.mutations, j)
+//@   ensures wire: result != nil && result.Type == tikvrpc.CmdPrewrite && result.Req.(*kvrpcpb.PrewriteRequest).StartVersion == c.startTS &&
+//@       result.Req.(*kvrpcpb.PrewriteRequest).ForUpdateTs == c.forUpdateTS && result.Req.(*kvrpcpb.PrewriteRequest).TxnSize == txnSize && result.Req.(*kvrpcpb.PrewriteRequest).MaxCommitTs == c.maxCommitTS
+//@   ensures primary: c.primaryKey != "" ==> result.Req.(*kvrpcpb.PrewriteRequest).PrimaryLock == c.primaryKey
+//@   ensures mincommit: result.Req.(*kvrpcpb.PrewriteRequest).MinCommitTs > c.startTS && (c.forUpdateTS > 0 ==> result.Req.(*kvrpcpb.PrewriteRequest).MinCommitTs > c.forUpdateTS) &&
+//@       result.Req.(*kvrpcpb.PrewriteRequest).MinCommitTs >= c.minCommitTSMgr.value
+//@   ensures ttl: result.Req.(*kvrpcpb.PrewriteRequest).LockTtl >= c.lockTTL
+//@   ensures flags: result.Req.(*kvrpcpb.PrewriteRequest).UseAsyncCommit == c.isAsyncCommit() && result.Req.(*kvrpcpb.PrewriteRequest).TryOnePc == c.isOnePC() &&
+//@       (!(c.isAsyncCommit() && batch.isPrimary) ==> len(result.Req.(*kvrpcpb.PrewriteRequest).Secondaries) == 0)
+//@   ensures all: len(result.Req.(*kvrpcpb.PrewriteRequest).Mutations) == mutLen(batch.mutations) && forall j int :: 0 <= j && j < mutLen(batch.mutations) ==>
+//@       result.Req.(*kvrpcpb.PrewriteRequest).Mutations[j] != nil && result.Req.(*kvrpcpb.PrewriteRequest).Mutations[j].Op == mutOp(batch.mutations, j) &&
+//@       result.Req.(*kvrpcpb.PrewriteRequest).Mutations[j].Key == mutKey(batch.mutations, j) && result.Req.(*kvrpcpb.PrewriteRequest).Mutations[j].Value == mutVal(batch.mutations, j)
+
+// A heart-beat names the primary and the transaction's start timestamp and advises exactly the given time-to-live.
+//@ func sendTxnHeartBeat
+//@   prop C04
+//@   bytes: key
+//@   opaque-callee MayBackoffForRegionError ExtractKeyErr
+//@   at call(SendReq) assert beat: arg_req != nil && arg_req.Type == tikvrpc.CmdTxnHeartBeat && arg_req.Req.(*kvrpcpb.TxnHeartBeatRequest).PrimaryLock == primary &&
+//@       arg_req.Req.(*kvrpcpb.TxnHeartBeatRequest).StartVersion == startTS && arg_req.Req.(*kvrpcpb.TxnHeartBeatRequest).AdviseLockTtl == ttl && arg_regionID == loc.Region
+
+// The keep-alive loop advises a time-to-live of the transaction's age (on the oracle's clock) plus the managed lock
+// time-to-live, for the primary it was started with, and stops once the age exceeds the maximum lifetime.
+//@ func keepAlive
+//@   prop C04
+//@   opaque-callee GetTimestampWithRetry close tryUpdate getRequiredWriteAccess GetGlobalConfig GetScope NewBackofferWithVars
+//@   at call(sendTxnHeartBeat) assert advise: arg_primary == primaryKey && arg_startTS == c.startTS && arg_ttl == newTTL && newTTL == uint64(uptime + ManagedLockTTL) && uptime <= maxTtl &&
+//@       uptime == uint64(oracle.ExtractPhysical(now) - oracle.ExtractPhysical(c.startTS))
+
+// The batch with the primary key is moved to the front.
+//@ func (*batched) setPrimary
+//@   prop C04
+//@   ensures front: result == (old(b.primaryIdx) >= 0) && (result && len(b.batches) > 0 && old(b.primaryIdx) < len(b.batches) ==> b.batches[0].isPrimary && b.primaryIdx == 0) && len(b.batches) == old(len(b.batches))
+
+// Commit (unless async commit), cleanup and pessimistic lock act on the primary batch first and alone; everything else is
+// touched only after that succeeded (then the primary batch is dropped from the list).
+//@ func (*twoPhaseCommitter) doActionOnGroupMutations
+//@   prop C04
+//@   may-panic
+//@   opaque-callee doActionOnBatches checkOnePCFallBack appendBatchMutationsBySize spawnWithStorePool NewBackofferWithVars tiKVTxnRegionsNumHistogram getDetail keySize keyValueSize
+//@   at call(primaryBatch) assert first: firstIsPrimary && ((actionIsCommit && !c.isAsyncCommit()) || actionIsCleanup || actionIsPessimisticLock)
+//@   at call(forgetPrimary) assert done: err == nil && firstIsPrimary
+//@   at call(allBatches#5) assert rest: (firstIsPrimary && ((actionIsCommit && !c.isAsyncCommit()) || actionIsCleanup || actionIsPessimisticLock)) ==> err == nil
